@@ -103,6 +103,11 @@ def programs(thorough):
         for ch in chains(3, third):
             if len(ch) == 3:
                 progs.append(("chain3", prog_chain(ch), ("s",)))
+    # a few nodes need one more element than the generic depth to reach their interesting state
+    # (n=3 batches with a repeated key in the middle; LRU of size 2 being refreshed): shape "deep"
+    for sp in (("punique", 3, "ident", "last"), ("punique", 3, "ident", "first"), ("punique", 3, "parity", "last"),
+               ("partition", 3, None), ("sw", 3, False), ("unique", 2, "ident", True), ("unique", 2, "ident", False)):
+        progs.append(("deep", prog_chain((sp,)), ("s",)))
     # fan-out in both attachment orders
     fans = [(("map", "inc"), ("filter", "odd")), (("acc", "add", None, False), ("sw", 2, True)), (("unique", 1, "parity", True), ("partition", 2, None)),
             (("slice", 1, None, 2), ("collect",)), (("map", "pair"), ("punique", 2, "parity", "last"))]
@@ -193,7 +198,9 @@ def run_space(ctx, pid, mode, depth, values, thorough, engine_note, clauses_doc)
     progs = programs(thorough)
     if getattr(ctx, "only", None):
         progs = [p for p in progs if ctx.only in repr(p)]
-    items = [(shape, prog, entries, mode, depth if len(entries) < 3 else min(depth, 3), values) for shape, prog, entries in progs]
+    items = [(shape, prog, entries, mode,
+              (depth if len(entries) < 3 else min(depth, 3)) + (2 if shape == "deep" else 0),
+              values if shape != "deep" else (1, 2, 3)) for shape, prog, entries in progs]
     rep = Report()
     tot = dict(states=0, transitions=0, runs=0, nontrivial=0)
     byshape = {}
